@@ -460,11 +460,6 @@ example : (⟨⟨0, 0⟩, ⟨5, 1⟩, ⟨4, 6⟩⟩ : Triangle).boundingBox.InRa
 
 /-! ## The one-pixel outline with `StrokeAlignment::Inside` / `Outside` -/
 
-/-- `l` is the edge between `a` and `b`, rasterised in one of its two directions. -/
-def IsEdge (l : Line) (a b : Pt) : Prop := l = ⟨a, b⟩ ∨ l = ⟨b, a⟩
-
-theorem IsEdge.symm {l : Line} {a b : Pt} (h : IsEdge l a b) : IsEdge l b a := Or.symm h
-
 /-- **The alignment does not matter unless the triangle has zero area and the stroke is `Inside`**:
 the `is_collapsed` flag is not set, the stroke offset reaches nothing else (the join code gives the
 same skeleton segments), and `pixels()` is the very list of the centre alignment. -/
@@ -508,33 +503,11 @@ theorem outline_inside_degenerate (t : Triangle) (c : Nat) (h : t.boundingBox.In
 example : (⟨⟨4, 6⟩, ⟨0, 0⟩, ⟨2, 3⟩⟩ : Triangle).boundingBox.InRange ∧
     (⟨⟨4, 6⟩, ⟨0, 0⟩, ⟨2, 3⟩⟩ : Triangle).areaDoubled = 0 := by decide
 
-/-- The three edges of a reordered triangle are the three edges of the triangle. -/
-theorem edges_of_orders {t s : Triangle} (h : s ∈ orders t) {l12 l23 l31 : Line}
-    (h12 : IsEdge l12 s.v1 s.v2) (h23 : IsEdge l23 s.v2 s.v3) (h31 : IsEdge l31 s.v3 s.v1) :
-    ∃ e1 e2 e3, IsEdge e1 t.v1 t.v2 ∧ IsEdge e2 t.v2 t.v3 ∧ IsEdge e3 t.v3 t.v1 ∧
-      ∀ p, (p ∈ Line.points l12 ∨ p ∈ Line.points l23 ∨ p ∈ Line.points l31) ↔
-        (p ∈ Line.points e1 ∨ p ∈ Line.points e2 ∨ p ∈ Line.points e3) := by
-  obtain ⟨a, b, c⟩ := t
-  rcases mem_orders.mp h with rfl | rfl | rfl | rfl | rfl | rfl <;> dsimp only at h12 h23 h31 ⊢
-  · exact ⟨l12, l23, l31, h12, h23, h31, fun p => Iff.rfl⟩
-  · exact ⟨l31, l23, l12, h31.symm, h23.symm, h12.symm, fun p => by
-      constructor <;> rintro (h | h | h) <;> simp [h]⟩
-  · exact ⟨l12, l31, l23, h12.symm, h31.symm, h23.symm, fun p => by
-      constructor <;> rintro (h | h | h) <;> simp [h]⟩
-  · exact ⟨l31, l12, l23, h31, h12, h23, fun p => by
-      constructor <;> rintro (h | h | h) <;> simp [h]⟩
-  · exact ⟨l23, l31, l12, h23, h31, h12, fun p => by
-      constructor <;> rintro (h | h | h) <;> simp [h]⟩
-  · exact ⟨l23, l12, l31, h23.symm, h12.symm, h31.symm, fun p => by
-      constructor <;> rintro (h | h | h) <;> simp [h]⟩
-
-example : (⟨⟨3, 1⟩, ⟨0, 0⟩, ⟨5, 7⟩⟩ : Triangle) ∈ orders ⟨⟨0, 0⟩, ⟨5, 7⟩, ⟨3, 1⟩⟩ := by decide
-
 /-- **A one-pixel triangle outline consists of its three edge lines, for every stroke alignment**
 (`Inside`, `Center`, `Outside`): the pixel set of `pixels()` is the union of `Line::points()` of
 the three edges `v1 v2`, `v2 v3`, `v3 v1`, each rasterised in one of its two directions — for every
 vertex triple (colinear and coincident vertices included) whose bounding box is within the `i32`
-range. -/
+range. `IsEdge l a b` (EG/Lemmas/TriangleOutlineAligned.lean) is `l = Line(a, b) ∨ l = Line(b, a)`. -/
 theorem outline_all_alignments (t : Triangle) (c : Nat) (a : TriAlign) (h : t.boundingBox.InRange) :
     ∃ e1 e2 e3, IsEdge e1 t.v1 t.v2 ∧ IsEdge e2 t.v2 t.v3 ∧ IsEdge e3 t.v3 t.v1 ∧
       ∀ p, p ∈ (t.outlinePixelsAligned c a).map (·.1) ↔
